@@ -1,119 +1,278 @@
-"""Translator: torchtree/evolution/tree_likelihood.py:TreeLikelihoodModel._underflow -> lean/TTGen/C03_Underflow.lean
+"""Translator: the switch test of torchtree/evolution/tree_likelihood.py:TreeLikelihoodModel -> lean/TTGen/C03_Underflow.lean
 
-Reads the AST of the switch test (when does the model abandon the unrescaled pass) and emits its structure as data:
+The test is found by ROLE, not by name: the method (or inline expression) whose result gates the statement
+`self.rescale = True` in the methods of `TreeLikelihoodModel` (today `calculate_with_tip_partials` and
+`calculate_with_tip_states`; all gating sites must use the same test).  Its body is evaluated symbolically:
 
-  recognised        the body has exactly the shape  [isinf guard; root = self.partials[<root>]; return bool(Q(R(root) < T))]
-  stmtCount         number of statements (docstring excluded)
-  isinfGuard        first statement is `if torch.any(torch.isinf(log_p)): return True`
-  earlyFalseExits   number of `return False` anywhere (an early "no underflow" exit skips the per-site test)
-  siteQuantifier    the reduction applied to the comparison ("any" / "all" / …): over sites and samples
-  statistic         the reduction applied to the root partial ("amax" / "mean" / "sum" / "amin" / …)
-  statDims          its `dim` (the code's [K,S,N] layout: (-3,-2) = category and state, per site)
-  comparison        "<" …;  thresholdAttr  the attribute compared with
+  * `name = expr`                       -> alias, substituted into later expressions (named intermediates);
+  * `if G: return True`                 -> `G` becomes a disjunct of the test;
+  * `return False` (anywhere)           -> counted in `earlyFalseExits` (an early "no underflow" exit skips the per-site test);
+  * `return E`                          -> the last disjunct;
+  * `self._helper(args)`                -> one level of private helpers of the class is inlined (body = aliases + `return E`);
+  * `torch.f(x, ...)` and `x.f(...)`, `bool(x)`, `a > b` / `b < a`, `dim=(..)`/`dim=[..]`/positional dims are normalised.
 
-`TTProofs/Props/C03_Switch.lean: underflow_source_shape` states the expected values by `decide`, so replacing the
-per-site max by a mean, `any` by `all`, other dims, or adding an early exit re-opens the obligation.  A body of any other
-shape (or a missing method) is emitted with `recognised := false` and the reason.
+Emitted structure (what the Lean obligation `underflow_source_shape` pins down):
+
+  recognised        the test is  any(isinf(log_p))  OR  Q_sites( R(root partial, dims) < self.T )  and nothing else
+  disjuncts         number of disjuncts (2)
+  isinfGuard        one disjunct is `any(isinf(<the log-likelihood argument>))`
+  earlyFalseExits   number of `return False`
+  siteQuantifier    Q: "any" / "all" …        statistic  R: "amax" / "mean" / "sum" …     statDims  its dims
+  comparison        "<" …                     thresholdAttr  T
+  rootIsRootPartial the reduced tensor is `self.partials[self.tree_model.postorder[-1][0]]`
+
+Renaming the method, naming intermediates, method-call spellings, early returns or `*arguments` at the call sites do not
+change the output; replacing the per-site max by a mean, `any` by `all`, other dims, another tensor, or adding an early exit
+does.  Anything that cannot be interpreted is emitted with `recognised := false` and the reason (never a silent default).
 """
 from __future__ import annotations
 
 import ast
+import copy
 from pathlib import Path
 
 
-def _call_name(e):
-    """torch.any(x) -> ('any', [x]) ; bool(x) -> ('bool', [x])"""
-    if isinstance(e, ast.Call):
-        if isinstance(e.func, ast.Attribute) and isinstance(e.func.value, ast.Name) and e.func.value.id == "torch":
-            return e.func.attr, e
-        if isinstance(e.func, ast.Name):
-            return e.func.id, e
-    return None, None
+class Unrecognised(Exception):
+    pass
 
 
 def _lean_str(x):
     return '"' + str(x).replace("\\", "\\\\").replace('"', '\\"') + '"'
 
 
+class _Subst(ast.NodeTransformer):
+    def __init__(self, env):
+        self.env = env
+
+    def visit_Name(self, node):
+        if isinstance(node.ctx, ast.Load) and node.id in self.env:
+            return copy.deepcopy(self.env[node.id])
+        return node
+
+
+def subst(e, env):
+    return _Subst(env).visit(copy.deepcopy(e))
+
+
+def strip_doc(body):
+    body = list(body)
+    if body and isinstance(body[0], ast.Expr) and isinstance(getattr(body[0], "value", None), ast.Constant) \
+            and isinstance(body[0].value.value, str):
+        body = body[1:]
+    return body
+
+
+def inline_helpers(e, methods, depth=1):
+    """replace `self._h(args)` by the helper's returned expression (one level)"""
+    if depth <= 0:
+        return e
+
+    class T(ast.NodeTransformer):
+        def visit_Call(self, node):
+            self.generic_visit(node)
+            f = node.func
+            if isinstance(f, ast.Attribute) and isinstance(f.value, ast.Name) and f.value.id == "self" and f.attr in methods \
+                    and not node.keywords:
+                fn = methods[f.attr]
+                params = [a.arg for a in fn.args.args][1:]
+                if len(params) != len(node.args):
+                    return node
+                env = dict(zip(params, node.args))
+                ret = None
+                for st in strip_doc(fn.body):
+                    if isinstance(st, ast.Assign) and len(st.targets) == 1 and isinstance(st.targets[0], ast.Name):
+                        env[st.targets[0].id] = subst(st.value, env)
+                    elif isinstance(st, ast.Return) and st.value is not None:
+                        ret = subst(st.value, env)
+                        break
+                    else:
+                        return node
+                return ret if ret is not None else node
+            return node
+
+    return T().visit(copy.deepcopy(e))
+
+
+def norm_call(e):
+    """-> (fname, receiver/first arg, other args, keywords) for torch.f(x, ...) / x.f(...) / f(x)"""
+    if not isinstance(e, ast.Call):
+        return None
+    f = e.func
+    if isinstance(f, ast.Attribute):
+        if isinstance(f.value, ast.Name) and f.value.id == "torch":
+            if not e.args:
+                return None
+            return f.attr, e.args[0], e.args[1:], e.keywords
+        return f.attr, f.value, e.args, e.keywords
+    if isinstance(f, ast.Name):
+        if not e.args:
+            return None
+        return f.id, e.args[0], e.args[1:], e.keywords
+    return None
+
+
+def unbool(e):
+    c = norm_call(e)
+    while c and c[0] == "bool" and not c[2]:
+        e = c[1]
+        c = norm_call(e)
+    return e
+
+
+def disjuncts_of(e):
+    e = unbool(e)
+    if isinstance(e, ast.BoolOp) and isinstance(e.op, ast.Or):
+        out = []
+        for v in e.values:
+            out += disjuncts_of(v)
+        return out
+    return [e]
+
+
+def dims_of(rest, kws):
+    d = None
+    for kw in kws:
+        if kw.arg in ("dim", "axis"):
+            d = ast.literal_eval(kw.value)
+    if d is None and rest:
+        d = ast.literal_eval(rest[0])
+    if d is None:
+        return None
+    return [int(x) for x in (d if isinstance(d, (tuple, list)) else [d])]
+
+
+def find_gate(cls):
+    """the tests that gate `self.rescale = True`; returns list of (method, test expr)"""
+    gates = []
+    for m in cls.body:
+        if not isinstance(m, ast.FunctionDef):
+            continue
+        for node in ast.walk(m):
+            if isinstance(node, ast.If):
+                for st in node.body:
+                    if isinstance(st, ast.Assign) and len(st.targets) == 1 and isinstance(st.targets[0], ast.Attribute) \
+                            and isinstance(st.targets[0].value, ast.Name) and st.targets[0].value.id == "self" \
+                            and st.targets[0].attr == "rescale" and isinstance(st.value, ast.Constant) and st.value.value is True:
+                        gates.append((m, node.test))
+    return gates
+
+
+def predicate_expr(cls, methods):
+    """-> (list of disjunct expressions, earlyFalseExits, name of the log-likelihood argument expression source)"""
+    gates = find_gate(cls)
+    if not gates:
+        raise Unrecognised("no `if …: self.rescale = True` in TreeLikelihoodModel")
+    forms = set()
+    result = None
+    for m, test in gates:
+        t = unbool(test)
+        if isinstance(t, ast.Call) and isinstance(t.func, ast.Attribute) and isinstance(t.func.value, ast.Name) \
+                and t.func.value.id == "self" and t.func.attr in methods and len(t.args) == 1 and not t.keywords:
+            fn = methods[t.func.attr]
+            forms.add("method:" + t.func.attr)
+            params = [a.arg for a in fn.args.args][1:]
+            if len(params) != 1:
+                raise Unrecognised(f"switch test {fn.name} takes {len(params)} arguments")
+            lp = params[0]
+            env, disj, early_false, final = {}, [], 0, None
+            early_false = sum(1 for n in ast.walk(fn) if isinstance(n, ast.Return) and isinstance(n.value, ast.Constant)
+                              and n.value.value is False)
+            for st in strip_doc(fn.body):
+                if final is not None:
+                    raise Unrecognised("statements after the final return")
+                if isinstance(st, ast.Assign) and len(st.targets) == 1 and isinstance(st.targets[0], ast.Name):
+                    env[st.targets[0].id] = inline_helpers(subst(st.value, env), methods)
+                elif isinstance(st, ast.AnnAssign) and isinstance(st.target, ast.Name) and st.value is not None:
+                    env[st.target.id] = inline_helpers(subst(st.value, env), methods)
+                elif isinstance(st, ast.If) and not st.orelse and len(st.body) == 1 and isinstance(st.body[0], ast.Return) \
+                        and isinstance(st.body[0].value, ast.Constant) and st.body[0].value.value is True:
+                    disj += disjuncts_of(inline_helpers(subst(st.test, env), methods))
+                elif isinstance(st, ast.If) and not st.orelse and len(st.body) == 1 and isinstance(st.body[0], ast.Return) \
+                        and isinstance(st.body[0].value, ast.Constant) and st.body[0].value.value is False:
+                    continue  # counted in early_false; the obligation requires 0
+                elif isinstance(st, ast.Return) and st.value is not None:
+                    final = inline_helpers(subst(st.value, env), methods)
+                    disj += disjuncts_of(final)
+                else:
+                    raise Unrecognised("statement not understood: " + ast.unparse(st).replace("\n", " ")[:80])
+            if final is None:
+                raise Unrecognised("no final return")
+            result = (disj, early_false, lp)
+        else:
+            # inline test at the call site (the pre-F21 form): the log-likelihood is whatever name the test mentions
+            forms.add("inline:" + ast.unparse(t))
+            names = [n.id for n in ast.walk(t) if isinstance(n, ast.Name) and n.id not in ("torch", "self", "bool")]
+            result = (disjuncts_of(t), 0, names[0] if names else "log_p")
+    if len(forms) != 1:
+        raise Unrecognised("the sites that set self.rescale use different tests: " + "; ".join(sorted(forms)))
+    return result
+
+
+ROOT_CANON = "self.partials[self.tree_model.postorder[-1][0]]"
+
+
 def translate(repo: Path):
     src_path = Path(repo) / "torchtree" / "evolution" / "tree_likelihood.py"
-    f = {"recognised": False, "stmtCount": 0, "isinfGuard": False, "earlyFalseExits": 0, "siteQuantifier": "",
-         "statistic": "", "statDims": [], "comparison": "", "thresholdAttr": ""}
+    f = {"recognised": False, "disjuncts": 0, "isinfGuard": False, "earlyFalseExits": 0, "siteQuantifier": "",
+         "statistic": "", "statDims": [], "comparison": "", "thresholdAttr": "", "rootIsRootPartial": False}
     note = ""
     try:
         tree = ast.parse(src_path.read_text())
-        fn = None
-        for node in ast.walk(tree):
-            if isinstance(node, ast.ClassDef) and node.name == "TreeLikelihoodModel":
-                for b in node.body:
-                    if isinstance(b, ast.FunctionDef) and b.name == "_underflow":
-                        fn = b
-        if fn is None:
-            raise ValueError("TreeLikelihoodModel._underflow not found")
-        body = list(fn.body)
-        if body and isinstance(body[0], ast.Expr) and isinstance(getattr(body[0], "value", None), ast.Constant) \
-                and isinstance(body[0].value.value, str):
-            body = body[1:]
-        f["stmtCount"] = len(body)
-        f["earlyFalseExits"] = sum(1 for n in ast.walk(fn) if isinstance(n, ast.Return) and isinstance(n.value, ast.Constant)
-                                   and n.value.value is False)
-        # isinf guard
-        if body and isinstance(body[0], ast.If) and not body[0].orelse and len(body[0].body) == 1 \
-                and isinstance(body[0].body[0], ast.Return) and isinstance(body[0].body[0].value, ast.Constant) \
-                and body[0].body[0].value.value is True:
-            n1, c1 = _call_name(body[0].test)
-            if n1 == "any" and len(c1.args) == 1:
-                n2, c2 = _call_name(c1.args[0])
-                if n2 == "isinf" and len(c2.args) == 1 and isinstance(c2.args[0], ast.Name) and c2.args[0].id == fn.args.args[1].arg:
+        cls = next((n for n in ast.walk(tree) if isinstance(n, ast.ClassDef) and n.name == "TreeLikelihoodModel"), None)
+        if cls is None:
+            raise Unrecognised("class TreeLikelihoodModel not found")
+        methods = {m.name: m for m in cls.body if isinstance(m, ast.FunctionDef)}
+        disj, early_false, lp = predicate_expr(cls, methods)
+        f["disjuncts"] = len(disj)
+        f["earlyFalseExits"] = early_false
+        rest = []
+        for d in disj:
+            c = norm_call(unbool(d))
+            if c and c[0] == "any" and not c[2]:
+                c2 = norm_call(c[1])
+                if c2 and c2[0] == "isinf" and isinstance(c2[1], ast.Name) and c2[1].id == lp:
                     f["isinfGuard"] = True
-        # final return: bool(Q(R(root, dim=D) < self.T))
-        ret = body[-1] if body else None
+                    continue
+            rest.append(d)
         shape_ok = False
-        if isinstance(ret, ast.Return):
-            e = ret.value
-            n0, c0 = _call_name(e)
-            if n0 == "bool" and len(c0.args) == 1:
-                e = c0.args[0]
-            nq, cq = _call_name(e)
-            if nq and len(cq.args) == 1 and isinstance(cq.args[0], ast.Compare) and len(cq.args[0].ops) == 1:
-                f["siteQuantifier"] = nq
-                cmp_ = cq.args[0]
-                f["comparison"] = {ast.Lt: "<", ast.LtE: "<=", ast.Gt: ">", ast.GtE: ">="}.get(type(cmp_.ops[0]), "?")
-                rhs = cmp_.comparators[0]
-                if isinstance(rhs, ast.Attribute) and isinstance(rhs.value, ast.Name) and rhs.value.id == "self":
+        if len(rest) == 1:
+            c = norm_call(unbool(rest[0]))
+            if c and not c[2] and isinstance(c[1], ast.Compare) and len(c[1].ops) == 1:
+                f["siteQuantifier"] = c[0]
+                cmp_ = c[1]
+                lhs, op, rhs = cmp_.left, cmp_.ops[0], cmp_.comparators[0]
+                sym = {ast.Lt: "<", ast.LtE: "<=", ast.Gt: ">", ast.GtE: ">="}.get(type(op), "?")
+                is_thr = lambda x: isinstance(x, ast.Attribute) and isinstance(x.value, ast.Name) and x.value.id == "self"  # noqa: E731
+                if is_thr(lhs) and not is_thr(rhs):  # T > stat  ==  stat < T
+                    lhs, rhs = rhs, lhs
+                    sym = {"<": ">", ">": "<", "<=": ">=", ">=": "<="}.get(sym, "?")
+                f["comparison"] = sym
+                if is_thr(rhs):
                     f["thresholdAttr"] = rhs.attr
-                ns, cs = _call_name(cmp_.left)
-                if ns:
-                    f["statistic"] = ns
-                    dims = None
-                    for kw in cs.keywords:
-                        if kw.arg == "dim":
-                            dims = ast.literal_eval(kw.value)
-                    if dims is None and len(cs.args) > 1:
-                        dims = ast.literal_eval(cs.args[1])
+                cs = norm_call(lhs)
+                if cs:
+                    f["statistic"] = cs[0]
+                    dims = dims_of(cs[2], cs[3])
                     if dims is not None:
-                        f["statDims"] = [int(d) for d in (dims if isinstance(dims, (tuple, list)) else [dims])]
-                    root_name = cs.args[0].id if cs.args and isinstance(cs.args[0], ast.Name) else None
-                    # middle: root = self.partials[self.tree_model.postorder[-1][0]]
-                    mid = body[1:-1]
-                    if len(mid) == 1 and isinstance(mid[0], ast.Assign) and len(mid[0].targets) == 1 \
-                            and isinstance(mid[0].targets[0], ast.Name) and mid[0].targets[0].id == root_name \
-                            and ast.unparse(mid[0].value).replace(" ", "") == "self.partials[self.tree_model.postorder[-1][0]]":
-                        shape_ok = True
-        f["recognised"] = bool(shape_ok and f["isinfGuard"] and len(body) == 3)
+                        f["statDims"] = dims
+                    f["rootIsRootPartial"] = ast.unparse(cs[1]).replace(" ", "") == ROOT_CANON
+                    shape_ok = True
+        f["recognised"] = bool(shape_ok and f["isinfGuard"] and len(disj) == 2)
         if not f["recognised"]:
-            note = "body of _underflow does not have the shape [isinf guard; root := root partial; return bool(Q(R(root) < T))]: " \
-                   + " | ".join(ast.unparse(b).replace("\n", " ")[:90] for b in body)
+            note = "switch test is not `any(isinf(log_p)) or Q(R(root partial) < self.T)`: " \
+                   + " || ".join(ast.unparse(d).replace("\n", " ")[:100] for d in disj)
+    except Unrecognised as e:
+        note = str(e)
     except Exception as e:  # unreadable source: never a silent default
         note = "%s: %s" % (type(e).__name__, e)
-    lean = f"""/-! GENERATED by harness/translators/tr_c03_underflow.py from
-    torchtree/evolution/tree_likelihood.py:TreeLikelihoodModel._underflow — do not edit.
+    lean = f"""/-! GENERATED by harness/translators/tr_c03_underflow.py from the switch test of
+    torchtree/evolution/tree_likelihood.py:TreeLikelihoodModel (found by role: the test that gates `self.rescale = True`) — do not edit.
     {note.replace('-/', '- /')}
 -/
 namespace TTGen.C03_Underflow
 
 def recognised : Bool := {'true' if f['recognised'] else 'false'}
-def stmtCount : Nat := {f['stmtCount']}
+def disjuncts : Nat := {f['disjuncts']}
 def isinfGuard : Bool := {'true' if f['isinfGuard'] else 'false'}
 def earlyFalseExits : Nat := {f['earlyFalseExits']}
 def siteQuantifier : String := {_lean_str(f['siteQuantifier'])}
@@ -121,6 +280,7 @@ def statistic : String := {_lean_str(f['statistic'])}
 def statDims : List Int := [{', '.join(str(d) for d in f['statDims'])}]
 def comparison : String := {_lean_str(f['comparison'])}
 def thresholdAttr : String := {_lean_str(f['thresholdAttr'])}
+def rootIsRootPartial : Bool := {'true' if f['rootIsRootPartial'] else 'false'}
 
 end TTGen.C03_Underflow
 """
